@@ -53,8 +53,9 @@ type Program struct {
 	SSA    map[string]*ssa.Package
 	// Renamed maps the frozen full name of an unexported helper that no longer
 	// exists to the function that took its place (see rules.ResolveRenames).
-	Renamed      map[string]*ssa.Function
-	RenamedTypes map[string]*types.Named
+	Renamed        map[string]*ssa.Function
+	RenamedTypes   map[string]*types.Named
+	RenamedGlobals map[string]*ssa.Global
 
 	cha *callgraph.Graph
 	vta *callgraph.Graph
@@ -226,8 +227,10 @@ func (p *Program) Global(pkg, name string) *ssa.Global {
 	if sp == nil {
 		return nil
 	}
-	g, _ := sp.Members[name].(*ssa.Global)
-	return g
+	if g, ok := sp.Members[name].(*ssa.Global); ok {
+		return g
+	}
+	return p.RenamedGlobals[pkg+"."+name]
 }
 
 // NamedType resolves a named type.
